@@ -1,6 +1,6 @@
 import P2sh.Core.Lines
 /-!
-# First-order functions over the core fragment: syntax, reference evaluation, compiler, machine
+# Functions and closures over the core fragment: syntax, reference evaluation, compiler, machine
 
 A layer on top of `P2sh.Core` (which it reuses: instructions, byte sizes, `fetch`, `codeAt`,
 `poolAt`, the patterns of `match`, the loop stack, the old machine's `step` for every
@@ -12,7 +12,20 @@ instruction that does not touch a frame).
   `FDecl`: a function (parameter count, slot count, body); `FTop`: a top-level statement or a
   function definition (`fn f(…) {…}`, `let f = fn(…) {…};`, `f = fn(…) {…};`).
   Every node carries the line of its token (for the line tables of C13); the semantics and the
-  compiler ignore it.  No captured variables: a body uses its slots, the globals and its own name.
+  compiler ignore it.
+* **closures** — `FExpr.mkclos`: a function literal written inside an expression (of a function
+  body or of the top level) with the list `caps` of the variables it captures (slots of the
+  function that creates it, captured values of that function — a capture chain —, that function
+  itself); `fget` / `fset`: reads of / assignments to the running closure's OWN COPY of a captured
+  variable.  A closure value is `.clos fd [] id`: `id` is the heap cell (`Sto.h`) that holds the
+  captured values — a closure object is shared by all its copies and lives on after the function
+  that created it has returned.  The captured values are copied when the closure is created (by
+  value, at that moment); an assignment to a captured variable changes the running closure's
+  copy — visible to later reads in this and in LATER activations of the same closure object (this
+  is what the VM does: `Closure::free` is a `RefCell`; the executable specification
+  `Spec/Ref.lean` deliberately leaves what a later activation sees unconstrained — the
+  correctness theorem here is about the VM's behaviour), never to the enclosing function's
+  variable nor to any other closure object.
 * **reference evaluation** — big-step with fuel: `evalE` / `evalS` / `evalP`; a store is the
   local slots of the running activation plus the globals (by reference); a call evaluates the
   callee, then the arguments left to right, checks the arity, runs the body in a fresh
@@ -27,7 +40,7 @@ instruction that does not touch a frame).
   (`replace_last_pop_with_return`) and which otherwise ends with `Return`; positions start at 0
   in every function's own code; the function constant is added after the constants of its body.
 * **machine** — `fstep`: the VM's `Call` / `ReturnValue` / `Return` / `GetLocal` / `SetLocal` /
-  `DefineLocal` / `Closure` (no captures) / `CurrClosure` on ONE operand stack: the callee slot,
+  `DefineLocal` / `Closure` / `GetFree` / `SetFree` / `CurrClosure` on ONE operand stack: the callee slot,
   the arguments become the first locals (`bp = sp - n`, `sp = bp + num_locals`), a return
   resets `sp = bp - 1` and pushes the value; every other instruction is `Core.step`.
 -/
@@ -35,6 +48,15 @@ namespace P2sh.Core.Fn
 open P2sh P2sh.Core
 
 /-! ## syntax -/
+
+/-- where a captured value comes from, in the function that creates the closure: one of its
+local slots (`GetLocal i`), one of its own captured values (`GetFree i`: a capture chain through
+an intermediate function), or the function itself (`CurrClosure`: its own name) -/
+inductive Cap where
+  | loc (i : Nat)
+  | free (i : Nat)
+  | self
+deriving Repr
 
 mutual
 inductive FExpr where
@@ -54,20 +76,18 @@ inductive FExpr where
   | lset (l : Nat) (i : Nat) (e : FExpr)     -- `x = e` for a local `x`: `SetLocal i`, the value stays
   | curr (l : Nat)                           -- the function's own name inside its body: `CurrClosure`
   | call (l : Nat) (f : FExpr) (args : FArgs) -- `f(a1, …, an)`; `l`: the line of the `(` token
+  | fget (l : Nat) (i : Nat)                 -- a captured variable: `GetFree i` (the closure's own copy)
+  | fset (l : Nat) (i : Nat) (e : FExpr)     -- `x = e` for a captured `x`: `SetFree i`, the value stays
+  /-- a function literal written inside an expression (`l`: the line of its `fn` token): the
+  function constant's code bytes and line table (`code`, `lines`: its identity), its parameter
+  and slot counts, its body, and the captured values `caps` in the order of their free indices -/
+  | mkclos (l : Nat) (code lines : List Nat) (np nl : Nat) (body : List FStmt) (caps : List Cap)
 inductive FArms where
   | last (la lp : Nat) (dflt : FExpr)
   | cons (la : Nat) (pats : List LPat) (body : FExpr) (rest : FArms)
 inductive FArgs where
   | nil
   | cons (a : FExpr) (rest : FArgs)
-end
-
-deriving instance Repr for FExpr, FArms, FArgs
-
-def FArgs.length : FArgs → Nat
-  | .nil => 0
-  | .cons _ r => r.length + 1
-
 inductive FStmt where
   | letG (l : Nat) (i : Nat) (e : FExpr)          -- `let x = e;` at top level: DefineGlobal
   | letL (l : Nat) (i : Nat) (e : FExpr)          -- `let x = e;` inside a function: DefineLocal
@@ -80,7 +100,13 @@ inductive FStmt where
   | ifS (ls l : Nat) (c : FExpr) (thn els : List FStmt)
   | ret (l : Nat) (e : FExpr)                     -- `return e;`
   | retN (l : Nat)                                -- `return;`
-deriving Repr
+end
+
+deriving instance Repr for FExpr, FArms, FArgs, FStmt
+
+def FArgs.length : FArgs → Nat
+  | .nil => 0
+  | .cons _ r => r.length + 1
 
 def FStmt.isExprStmt : FStmt → Bool
   | .expr .. | .ifS .. => true
@@ -107,11 +133,54 @@ inductive FFlow where
   | ret (v : Val)
 deriving Repr
 
-/-- the store an activation sees: its local slots and the globals -/
+/-- the store an activation sees: its local slots, the globals, and the heap of closure objects:
+cell `id` is the vector of captured values of the closure `.clos fd [] id` (`Closure::free`, a
+`RefCell<Vec<…>>` shared by every copy of the `Rc<Closure>`) -/
 structure Sto where
   l : List Val
   g : List Val
+  h : List (List Val)
 deriving Repr
+
+/-- the function constant of a declaration: the code bytes and line table the compiler stored
+in it (`code`, `lines`: its identity — `==` on functions compares them), and the declaration's
+`num_locals`, `num_params`, line -/
+def mkFd (code lines : List Nat) (d : FDecl) : FnDef := ⟨code, lines, d.nl, d.np, d.line⟩
+
+/-- captured value `i` of the closure object `id` -/
+def freeGet (h : List (List Val)) (id i : Nat) : Option Val :=
+  match h[id]? with
+  | some fr => fr[i]?
+  | none => none
+
+/-- `free[i] = v` in the closure object `id` (no other cell, no other index changes) -/
+def freeSet (h : List (List Val)) (id i : Nat) (v : Val) : Option (List (List Val)) :=
+  match h[id]? with
+  | some fr => if i < fr.length then some (h.set id (fr.set i v)) else none
+  | none => none
+
+/-- the current value of a captured variable, in the activation `cx` (function constant and
+closure object) that creates the closure -/
+def capVal (cx : Option (FnDef × Nat)) (σ : Sto) : Cap → Option Val
+  | .loc i => σ.l[i]?
+  | .free i =>
+    (match cx with
+     | some (_, id) => freeGet σ.h id i
+     | none => none)
+  | .self =>
+    (match cx with
+     | some (fd, id) => some (.clos fd [] id)
+     | none => none)
+
+def capVals (cx : Option (FnDef × Nat)) (σ : Sto) : List Cap → Option (List Val)
+  | [] => some []
+  | c :: rest =>
+    match capVal cx σ c with
+    | some v =>
+      (match capVals cx σ rest with
+       | some vs => some (v :: vs)
+       | none => none)
+    | none => none
 
 /-- what a loop labelled `lbl` does with the flow its body ended in (a `return` goes through) -/
 def floopAct (lbl : Option String) : FFlow → LoopAct
@@ -126,9 +195,10 @@ section eval
 variable (Φ : FnDef → Option FDecl)
 
 mutual
-/-- `cx`: the function whose body is being evaluated (`none`: the top-level program).
+/-- `cx`: the activation being evaluated — the function constant and the closure object (heap
+cell) of the closure that was called (`none`: the top-level program).
 `some (v, σ')`: the value and the store afterwards; `none`: a runtime error (or not enough fuel) -/
-def evalE : Nat → Option FnDef → Sto → FExpr → Option (Val × Sto)
+def evalE : Nat → Option (FnDef × Nat) → Sto → FExpr → Option (Val × Sto)
   | 0, _, _, _ => none
   | _+1, _, σ, .lit _ v => some (v, σ)
   | _+1, _, σ, .tru _ => some (.bool true, σ)
@@ -174,7 +244,7 @@ def evalE : Nat → Option FnDef → Sto → FExpr → Option (Val × Sto)
   | _+1, _, σ, .gget _ i => some (σ.g.getD i .null, σ)
   | fuel+1, cx, σ, .gset _ i e =>
     match evalE fuel cx σ e with
-    | some (v, σ1) => if i < σ1.g.length then some (v, ⟨σ1.l, σ1.g.set i v⟩) else none
+    | some (v, σ1) => if i < σ1.g.length then some (v, ⟨σ1.l, σ1.g.set i v, σ1.h⟩) else none
     | none => none
   | fuel+1, cx, σ, .matchE _ s arms =>
     match evalE fuel cx σ s with
@@ -186,11 +256,37 @@ def evalE : Nat → Option FnDef → Sto → FExpr → Option (Val × Sto)
     | none => none
   | fuel+1, cx, σ, .lset _ i e =>
     match evalE fuel cx σ e with
-    | some (v, σ1) => if i < σ1.l.length then some (v, ⟨σ1.l.set i v, σ1.g⟩) else none
+    | some (v, σ1) => if i < σ1.l.length then some (v, ⟨σ1.l.set i v, σ1.g, σ1.h⟩) else none
     | none => none
   | _+1, cx, σ, .curr _ =>
     match cx with
-    | some fd => some (.clos fd [] 0, σ)
+    | some (fd, id) => some (.clos fd [] id, σ)
+    | none => none
+  | _+1, cx, σ, .fget _ i =>
+    -- a captured variable is read from the running closure's own copy
+    match cx with
+    | some (_, id) =>
+      (match freeGet σ.h id i with
+       | some v => some (v, σ)
+       | none => none)
+    | none => none
+  | fuel+1, cx, σ, .fset _ i e =>
+    -- … and assigned in that copy: neither the variable of the enclosing function nor the copy of
+    -- any other closure object changes; the next activation of THIS closure object sees the value
+    match evalE fuel cx σ e with
+    | some (v, σ1) =>
+      (match cx with
+       | some (_, id) =>
+         (match freeSet σ1.h id i v with
+          | some h' => some (v, ⟨σ1.l, σ1.g, h'⟩)
+          | none => none)
+       | none => none)
+    | none => none
+  | _+1, cx, σ, .mkclos l code lines np nl body caps =>
+    -- a closure is created: the CURRENT values of the captured variables are copied into a new
+    -- closure object
+    match capVals cx σ caps with
+    | some vs => some (.clos (mkFd code lines ⟨np, nl, body, l⟩) [] σ.h.length, ⟨σ.l, σ.g, σ.h ++ [vs]⟩)
     | none => none
   | fuel+1, cx, σ, .call _ f args =>
     -- the callee, then the arguments left to right; the arity; the body in a fresh activation
@@ -200,20 +296,20 @@ def evalE : Nat → Option FnDef → Sto → FExpr → Option (Val × Sto)
       (match evalArgs fuel cx σ1 args with
        | some (vs, σ2) =>
          (match vf with
-          | .clos fd _ _ =>
+          | .clos fd _ id =>
             (match Φ fd with
              | some d =>
                if vs.length = d.np then
-                 (match evalP fuel (some fd) ⟨vs ++ List.replicate (d.nl - d.np) .null, σ2.g⟩ d.body with
-                  | some (σ3, .ret v, _) => some (v, ⟨σ2.l, σ3.g⟩)       -- `return v;`
-                  | some (σ3, .normal, bv) => some (bv, ⟨σ2.l, σ3.g⟩)    -- the implicit return
+                 (match evalP fuel (some (fd, id)) ⟨vs ++ List.replicate (d.nl - d.np) .null, σ2.g, σ2.h⟩ d.body with
+                  | some (σ3, .ret v, _) => some (v, ⟨σ2.l, σ3.g, σ3.h⟩)       -- `return v;`
+                  | some (σ3, .normal, bv) => some (bv, ⟨σ2.l, σ3.g, σ3.h⟩)    -- the implicit return
                   | _ => none)
                else none
              | none => none)
           | _ => none)
        | none => none)
     | none => none
-def evalArms : Nat → Option FnDef → Sto → Val → FArms → Option (Val × Sto)
+def evalArms : Nat → Option (FnDef × Nat) → Sto → Val → FArms → Option (Val × Sto)
   | 0, _, _, _, _ => none
   | fuel+1, cx, σ, _, .last _ _ d => evalE fuel cx σ d
   | fuel+1, cx, σ, v, .cons _ pats body rest =>
@@ -221,7 +317,7 @@ def evalArms : Nat → Option FnDef → Sto → Val → FArms → Option (Val ×
     | some true => evalE fuel cx σ body
     | some false => evalArms fuel cx σ v rest
     | none => none
-def evalArgs : Nat → Option FnDef → Sto → FArgs → Option (List Val × Sto)
+def evalArgs : Nat → Option (FnDef × Nat) → Sto → FArgs → Option (List Val × Sto)
   | 0, _, _, _ => none
   | _+1, _, σ, .nil => some ([], σ)
   | fuel+1, cx, σ, .cons a rest =>
@@ -233,15 +329,15 @@ def evalArgs : Nat → Option FnDef → Sto → FArgs → Option (List Val × St
     | none => none
 /-- a statement: the store afterwards, the flow, and the statement's value (that of the
 expression for an expression statement, that of the chosen branch for an `if`, else `null`) -/
-def evalS : Nat → Option FnDef → Sto → FStmt → Option (Sto × FFlow × Val)
+def evalS : Nat → Option (FnDef × Nat) → Sto → FStmt → Option (Sto × FFlow × Val)
   | 0, _, _, _ => none
   | fuel+1, cx, σ, .letG _ i e =>
     (match evalE fuel cx σ e with
-     | some (v, σ1) => if i < σ1.g.length then some (⟨σ1.l, σ1.g.set i v⟩, .normal, .null) else none
+     | some (v, σ1) => if i < σ1.g.length then some (⟨σ1.l, σ1.g.set i v, σ1.h⟩, .normal, .null) else none
      | none => none)
   | fuel+1, cx, σ, .letL _ i e =>
     (match evalE fuel cx σ e with
-     | some (v, σ1) => if i < σ1.l.length then some (⟨σ1.l.set i v, σ1.g⟩, .normal, .null) else none
+     | some (v, σ1) => if i < σ1.l.length then some (⟨σ1.l.set i v, σ1.g, σ1.h⟩, .normal, .null) else none
      | none => none)
   | fuel+1, cx, σ, .expr _ e =>
     (match evalE fuel cx σ e with
@@ -291,7 +387,7 @@ def evalS : Nat → Option FnDef → Sto → FStmt → Option (Sto × FFlow × V
      | none => none)
 /-- a statement list: what follows a `break` / `continue` / `return` is skipped; the value is
 that of the last statement -/
-def evalP : Nat → Option FnDef → Sto → List FStmt → Option (Sto × FFlow × Val)
+def evalP : Nat → Option (FnDef × Nat) → Sto → List FStmt → Option (Sto × FFlow × Val)
   | 0, _, _, _ => none
   | _+1, _, σ, [] => some (σ, .normal, .null)
   | fuel+1, cx, σ, s :: rest =>
@@ -309,25 +405,47 @@ end eval
 /-! ## the compiler -/
 
 mutual
-/-- constants an expression adds to the pool, in emission order -/
+/-- constants an expression adds to the pool, in emission order; a function literal adds the
+constants of its body and then its function constant -/
 def constsE : FExpr → List Val
   | .lit _ v => [v]
-  | .tru _ | .fls _ | .null _ | .gget .. | .lget .. | .curr _ => []
+  | .tru _ | .fls _ | .null _ | .gget .. | .lget .. | .curr _ | .fget .. => []
   | .un _ _ e => constsE e
   | .bin _ _ a b => constsE a ++ constsE b
   | .lt _ a b | .le _ a b => constsE b ++ constsE a
   | .and _ a b | .or _ a b => constsE a ++ constsE b
   | .ite _ c t e => constsE c ++ constsE t ++ constsE e
-  | .gset _ _ e | .lset _ _ e => constsE e
+  | .gset _ _ e | .lset _ _ e | .fset _ _ e => constsE e
   | .matchE _ s arms => constsE s ++ constsArms arms
   | .call _ f args => constsE f ++ constsArgs args
+  | .mkclos l code lines np nl body _ => constsP body ++ [.func ⟨code, lines, nl, np, l⟩]
 def constsArms : FArms → List Val
   | .last _ _ d => constsE d
   | .cons _ pats body rest => patsConsts (pats.map erasePat) ++ constsE body ++ constsArms rest
 def constsArgs : FArgs → List Val
   | .nil => []
   | .cons a rest => constsE a ++ constsArgs rest
+def constsS : FStmt → List Val
+  | .letG _ _ e | .letL _ _ e | .expr _ e | .ret _ e => constsE e
+  | .block _ body => constsP body
+  | .whileS _ _ c body => constsE c ++ constsP body
+  | .loopS _ _ body => constsP body
+  | .breakS .. | .continueS .. | .retN _ => []
+  | .ifS _ _ c thn els => constsE c ++ constsP thn ++ constsP els
+def constsP : List FStmt → List Val
+  | [] => []
+  | s :: rest => constsS s ++ constsP rest
 end
+
+/-- the instruction that loads a captured value before `Closure` -/
+def capInstr : Cap → Instr
+  | .loc i => .getLocal i
+  | .free i => .getFree i
+  | .self => .currClosure
+
+def capsBytes : List Cap → Nat
+  | [] => 0
+  | c :: rest => (capInstr c).size + capsBytes rest
 
 mutual
 /-- compile at absolute byte position `pos` (in the code of the function being compiled) with
@@ -377,6 +495,12 @@ def compileE (pos k : Nat) : FExpr → List Instr
     -- the callee, the arguments, `Call n`
     let cf := compileE pos k f
     cf ++ compileArgs (pos + bytes cf) (k + (constsE f).length) args ++ [.call args.length]
+  | .fget _ i => [.getFree i]
+  | .fset _ i e => compileE pos k e ++ [.setFree i]
+  | .mkclos _ _ _ _ _ body caps =>
+    -- the captured values in the order of their free indices, then `Closure c n`: the function
+    -- constant follows the constants of its body in the pool
+    caps.map capInstr ++ [.closure (k + (constsP body).length) caps.length]
 def compileArms (pos k : Nat) : FArms → List Instr
   | .last _ _ d =>
     let cd := compileE (pos + 3 + 3 + 1) k d
@@ -413,25 +537,15 @@ def sizeE : FExpr → Nat
   | .lset _ _ e => sizeE e + 2
   | .curr _ => 1
   | .call _ f args => sizeE f + sizeArgs args + 2
+  | .fget .. => 2
+  | .fset _ _ e => sizeE e + 2
+  | .mkclos _ _ _ _ _ _ caps => capsBytes caps + 4
 def sizeArms : FArms → Nat
   | .last _ _ d => 3 + 3 + 1 + sizeE d
   | .cons _ pats body rest => patsBytes (pats.map erasePat) + 3 + 1 + sizeE body + 3 + sizeArms rest
 def sizeArgs : FArgs → Nat
   | .nil => 0
   | .cons a rest => sizeE a + sizeArgs rest
-end
-
-mutual
-def constsS : FStmt → List Val
-  | .letG _ _ e | .letL _ _ e | .expr _ e | .ret _ e => constsE e
-  | .block _ body => constsP body
-  | .whileS _ _ c body => constsE c ++ constsP body
-  | .loopS _ _ body => constsP body
-  | .breakS .. | .continueS .. | .retN _ => []
-  | .ifS _ _ c thn els => constsE c ++ constsP thn ++ constsP els
-def constsP : List FStmt → List Val
-  | [] => []
-  | s :: rest => constsS s ++ constsP rest
 end
 
 mutual
@@ -529,11 +643,12 @@ def compileFn (k : Nat) (d : FDecl) : List Instr := tailP 0 k [] d.body
 
 /-! ## the machine -/
 
-/-- a frame: the code of the closure being run, the closure's function, the instruction
-pointer, the base pointer -/
+/-- a frame: the code of the closure being run, the closure's function and closure object (heap
+cell of its captured values), the instruction pointer, the base pointer -/
 structure Act where
   code : List Instr
   fd : FnDef
+  cid : Nat
   pc : Nat
   bp : Nat
 deriving Repr
@@ -542,6 +657,7 @@ structure FSt where
   act : Act
   stk : List Val          -- the operand stack, top first; `stk.length` is `sp`
   g : List Val
+  h : List (List Val)     -- the closure objects: cell `id` = the captured values of `.clos fd [] id`
   callers : List Act      -- the frames below the current one
 deriving Repr
 
@@ -564,11 +680,11 @@ def fstep (K : List Val) (F : FnDef → Option (List Instr)) (s : FSt) : Option 
       -- `exec_call` / `call_func`: the callee under the `n` arguments must be a closure whose
       -- `num_params` is `n`; `bp = sp - n`; the caller's `ip` goes past the `Call`; `sp = bp + num_locals`
       (match s.stk[n]? with
-       | some (.clos fd _ _) =>
+       | some (.clos fd _ id) =>
          if n = fd.numParams then
            (match F fd with
             | some code =>
-              some ⟨⟨code, fd, 0, s.stk.length - n⟩, List.replicate (fd.numLocals - n) .null ++ s.stk, s.g,
+              some ⟨⟨code, fd, id, 0, s.stk.length - n⟩, List.replicate (fd.numLocals - n) .null ++ s.stk, s.g, s.h,
                     { s.act with pc := s.act.pc + 2 } :: s.callers⟩
             | none => none)
          else none
@@ -576,42 +692,59 @@ def fstep (K : List Val) (F : FnDef → Option (List Instr)) (s : FSt) : Option 
     | .retv =>
       -- pop the value, pop the frame, `sp = bp - 1`, push the value
       (match s.stk, s.callers with
-       | v :: _, c :: cs => some ⟨c, v :: botTake s.stk (s.act.bp - 1), s.g, cs⟩
+       | v :: _, c :: cs => some ⟨c, v :: botTake s.stk (s.act.bp - 1), s.g, s.h, cs⟩
        | _, _ => none)
     | .ret =>
       (match s.callers with
-       | c :: cs => some ⟨c, .null :: botTake s.stk (s.act.bp - 1), s.g, cs⟩
+       | c :: cs => some ⟨c, .null :: botTake s.stk (s.act.bp - 1), s.g, s.h, cs⟩
        | [] => none)
     | .getLocal i =>
       (match botGet s.stk (s.act.bp + i) with
-       | some v => some ⟨{ s.act with pc := s.act.pc + 2 }, v :: s.stk, s.g, s.callers⟩
+       | some v => some ⟨{ s.act with pc := s.act.pc + 2 }, v :: s.stk, s.g, s.h, s.callers⟩
        | none => none)
     | .setLocal i =>
       (match s.stk with
        | v :: _ =>
          if s.act.bp + i < s.stk.length then
-           some ⟨{ s.act with pc := s.act.pc + 2 }, botSet s.stk (s.act.bp + i) v, s.g, s.callers⟩
+           some ⟨{ s.act with pc := s.act.pc + 2 }, botSet s.stk (s.act.bp + i) v, s.g, s.h, s.callers⟩
          else none
        | [] => none)
     | .defLocal i =>
       (match s.stk with
        | v :: rest =>
          if s.act.bp + i < rest.length then
-           some ⟨{ s.act with pc := s.act.pc + 2 }, botSet rest (s.act.bp + i) v, s.g, s.callers⟩
+           some ⟨{ s.act with pc := s.act.pc + 2 }, botSet rest (s.act.bp + i) v, s.g, s.h, s.callers⟩
          else none
        | [] => none)
     | .closure c nfree =>
-      -- `push_closure` with no captured values
-      if nfree = 0 then
-        (match K[c]? with
-         | some (.func fd) => some ⟨{ s.act with pc := s.act.pc + 4 }, .clos fd [] 0 :: s.stk, s.g, s.callers⟩
-         | _ => none)
-      else none
-    | .currClosure => some ⟨{ s.act with pc := s.act.pc + 1 }, .clos s.act.fd [] 0 :: s.stk, s.g, s.callers⟩
+      -- `push_closure`: the `nfree` topmost operands, the deepest first (`stack[sp - nfree + i]`
+      -- becomes `free[i]`), are copied into a new closure object and popped
+      (match K[c]? with
+       | some (.func fd) =>
+         if nfree ≤ s.stk.length then
+           some ⟨{ s.act with pc := s.act.pc + 4 }, .clos fd [] s.h.length :: s.stk.drop nfree, s.g,
+                 s.h ++ [(s.stk.take nfree).reverse], s.callers⟩
+         else none
+       | _ => none)
+    | .currClosure =>
+      some ⟨{ s.act with pc := s.act.pc + 1 }, .clos s.act.fd [] s.act.cid :: s.stk, s.g, s.h, s.callers⟩
+    | .getFree i =>
+      -- `current_frame().closure.free[i]`
+      (match freeGet s.h s.act.cid i with
+       | some v => some ⟨{ s.act with pc := s.act.pc + 2 }, v :: s.stk, s.g, s.h, s.callers⟩
+       | none => none)
+    | .setFree i =>
+      -- `current_frame().closure.free[i] = top`: the running closure's own copy, nothing else
+      (match s.stk with
+       | v :: _ =>
+         (match freeSet s.h s.act.cid i v with
+          | some h' => some ⟨{ s.act with pc := s.act.pc + 2 }, s.stk, s.g, h', s.callers⟩
+          | none => none)
+       | [] => none)
     | _ =>
       -- every other instruction: the core machine on the current frame's code
       (match step s.act.code K ⟨s.act.pc, s.stk, s.g⟩ with
-       | some t => some ⟨{ s.act with pc := t.pc }, t.stk, t.g, s.callers⟩
+       | some t => some ⟨{ s.act with pc := t.pc }, t.stk, t.g, s.h, s.callers⟩
        | none => none)
 
 inductive FSteps (K : List Val) (F : FnDef → Option (List Instr)) : FSt → FSt → Prop
